@@ -111,6 +111,9 @@ func NewStats() *Stats {
 }
 
 func (s *Stats) Ratio(r float64, where string) {
+	if r != r || r > 1e30 {
+		r = 1e30 // NaN/Inf: keep the evidence encodable
+	}
 	if r > s.MaxErrOverBound {
 		s.MaxErrOverBound = r
 		s.MaxErrWhere = where
